@@ -126,6 +126,9 @@ pub fn build_symtab(enc: Enc, names: &[Vec<u8>], fields_seed: u64, share: bool) 
         let off = if share {
             if let Some((_, o)) = offs.iter().find(|(k, _)| k == n) {
                 *o
+            } else if let Some((k, o)) = offs.iter().find(|(k, _)| !n.is_empty() && k.len() > n.len() && k.ends_with(n) && fields_seed % 2 == 1) {
+                // tail merging as linkers do: "memset" stored as the tail of "use_memset"
+                *o + (k.len() - n.len()) as u32
             } else {
                 let o = st.add(n);
                 offs.push((n.clone(), o));
